@@ -90,8 +90,19 @@ Fixpoint wheight (g : graph) (fs : node -> Z) (fuel : nat) (n : node) : option Z
 Definition unit_cost : node -> Z := fun _ => 1.
 Definition fuel_of (g : graph) : nat := S (length g).
 
+(* fast pre-filter (no theorem depends on it): repeatedly drop the functions none of whose
+   callees is still alive; something survives |g| rounds iff there is a cycle.  It only keeps
+   the exponential search below from being run on a cyclic graph. *)
+Definition live_succ (g : graph) (alive : list node) (n : node) : bool :=
+  existsb (fun m => mem m alive) (succs g n).
+Fixpoint peel (fuel : nat) (g : graph) (alive : list node) : list node :=
+  match fuel with O => alive | S f => peel f g (filter (live_succ g alive) alive) end.
+Definition peel_ok (g : graph) : bool :=
+  match peel (length g) g (keys g) with [] => true | _ => false end.
+
 (* decision procedure: from every listed function the longest path is finite *)
 Definition acyclic (g : graph) : bool :=
+  peel_ok g &&
   forallb (fun n => match wheight g unit_cost (fuel_of g) n with Some _ => true | None => false end) (keys g).
 
 Definition wh (g : graph) (fs : node -> Z) (n : node) : Z :=
